@@ -60,6 +60,56 @@ Theorem C06_addmount_exactly_one : forall n s, areach n s -> a_stored s = true -
 Proof. exact addmount_exactly_one. Qed.
 Print Assumptions C06_addmount_exactly_one.
 
+(* AddMount (sequential): a mount is accepted only at a valid name other than ".", not yet mounted, that is a DIRECTORY of
+   the file system its parent directory routes to (not merely of the root file system) ... *)
+Theorem C06_addmount_accepts_only_directories_where_the_path_routes : forall m p nf,
+  snd (m_addmount m p nf) = None ->
+  valid_path p = true /\ p <> dot /\ (forall e, In e (m_table m) -> fst e <> p) /\
+  let '(i, sub) := mount_route (m_table m) (path_dir p) in
+  exists h, snd (kv_stat (fs_at m i) (join2 sub (path_base p))) = inl h /\ is_dir (f_mode h) = true.
+Proof. exact addmount_accepts. Qed.
+Print Assumptions C06_addmount_accepts_only_directories_where_the_path_routes.
+
+(* ... a refused AddMount changes neither the table nor any record of any constituent ... *)
+Theorem C06_addmount_refused_changes_nothing : forall m p nf c,
+  snd (m_addmount m p nf) = Some c ->
+  m_table (fst (m_addmount m p nf)) = m_table m /\
+  forall j, st_store (fs_at (fst (m_addmount m p nf)) j) = st_store (fs_at m j).
+Proof. exact addmount_refused_changes_nothing. Qed.
+Print Assumptions C06_addmount_refused_changes_nothing.
+
+(* ... after an accepted one the point is the root of the new constituent, every path that is neither the point nor
+   below it is routed exactly as before, and a path below it goes to the new constituent unless a longer (nested)
+   mount point matches. *)
+Theorem C06_addmount_routing_afterwards : forall m p nf,
+  snd (m_addmount m p nf) = None ->
+  mount_route (m_table (fst (m_addmount m p nf))) p = (length (m_fs m), dot)
+  /\ (forall q, matches p q = false ->
+       mount_route (m_table (fst (m_addmount m p nf))) q = mount_route (m_table m) q)
+  /\ (forall q, has_prefix q (p ++ [slash]) = true ->
+       (forall mp fs, In (mp, fs) (m_table m) -> matches mp q = true -> length mp <= length p) ->
+       NoDup (map fst (m_table m)) ->
+       fst (mp_scan (m_table (fst (m_addmount m p nf))) q [] 0) = p).
+Proof.
+  intros m p nf H. split; [apply addmount_routes_the_point; exact H|]. split.
+  - intros q M. apply addmount_keeps_other_routes; assumption.
+  - intros q B S ND. apply addmount_routes_below; assumption.
+Qed.
+Print Assumptions C06_addmount_routing_afterwards.
+
+(* Non-vacuity of the three: a mount inside a mount is accepted where the MOUNTED file system has the directory and
+   refused where only the root has it. *)
+Example C06_addmount_nonvacuous :
+  let m0 := minit [S "a"] in
+  let m1 := fst (mstep m0 (Mkdir (S "a/b") 493%N)) in
+  snd (m_addmount m1 (S "a/b") kv_init) = None
+  /\ mount_route (m_table (fst (m_addmount m1 (S "a/b") kv_init))) (S "a/b/x") = (2, S "x")
+  /\ snd (m_addmount m0 (S "a/b") kv_init) = Some ENOENT
+  /\ snd (m_addmount m1 (S "a") kv_init) = Some EEXIST
+  /\ snd (m_addmount m1 (S "a/") kv_init) = Some EINVAL.
+Proof. vm_compute. repeat split. Qed.
+Print Assumptions C06_addmount_nonvacuous.
+
 (* Non-vacuity: nested and look-alike mount points, a file renamed across two mounts. *)
 Example C06_nonvacuous :
   let t := [(S "a", 1); (S "ab", 2); (S "a/b", 3)] in
